@@ -28,6 +28,7 @@ from placement import exception
 from placement.handlers import util as data_util
 from placement import microversion
 from placement.objects import allocation as alloc_obj
+from placement.objects import consumer as consumer_obj
 from placement.objects import resource_provider as rp_obj
 from placement.policies import allocation as policies
 from placement.schemas import allocation as schema
@@ -380,7 +381,10 @@ def delete_consumers(consumers):
     """
     for consumer in consumers:
         try:
-            consumer.delete()
+            # Only remove it if it holds nothing: a racing request may have
+            # found this consumer and written allocations for it meanwhile.
+            consumer_obj.delete_consumers_if_no_allocations(
+                consumer._context, [consumer.uuid])
             LOG.debug("Deleted auto-created consumer with consumer UUID "
                       "%s after failed allocation", consumer.uuid)
         except Exception as err:
